@@ -218,6 +218,14 @@ mutual
         (match aExpr fuel rest with
          | some (e, .rp :: rest') => some (e, rest')
          | _ => none)
+      | .minus :: rest =>
+        (match aFactor fuel rest with
+         | some (e, rest') => some (.sub (.num 0) e, rest')
+         | none => none)
+      | .plus :: rest =>
+        (match aFactor fuel rest with
+         | some (e, rest') => some (.add (.num 0) e, rest')
+         | none => none)
       | _ => none
 end
 
@@ -262,6 +270,7 @@ def parseDollar (rest : Bytes) : PRes (Option (Part × Bytes)) :=
               match opRest with
               | none => .outside
               | some (o, r'') =>
+                if r''.head? == some bTilde then .outside else   -- the word gets tilde expansion: kept out
                 match parseWord (r''.length + 1) r'' [] [] with
                 | .ok (w, r3) => .ok (some (.paramOp n o w, r3))
                 | .err => .err
@@ -281,6 +290,15 @@ def parseDollar (rest : Bytes) : PRes (Option (Part × Bytes)) :=
          || c == 91 then .outside   -- special parameters, `$[`
     else .ok none
 
+/-- The lexer's line continuation (`Parser.rune`): a backslash-newline pair disappears unless the
+    rune before the backslash is itself a backslash (escaped or not). -/
+def joinLines : Bool → Bytes → Bytes
+  | _, [] => []
+  | _, [b] => [b]
+  | prevBS, b :: c :: rest =>
+    if b == bBS && !prevBS && c == bNL then joinLines false rest
+    else b :: joinLines (b == bBS) (c :: rest)
+
 /-- Parser.Document on the fragment: the parts of the here-document word. -/
 def parseDoc : Nat → Bytes → Bytes → List Part → PRes (List Part)
   | 0, _, _, _ => .outside
@@ -291,8 +309,7 @@ def parseDoc : Nat → Bytes → Bytes → List Part → PRes (List Part)
       match rest with
       | [] => parseDoc fuel [] (cur ++ [b]) acc
       | c :: rest' =>
-        if c == bNL then parseDoc fuel rest' cur acc          -- line continuation
-        else if c == 0 || c == 13 then .outside
+        if c == 0 || c == 13 then .outside
         else parseDoc fuel rest' (cur ++ [b, c]) acc
     else if b == bDollar then
       match parseDollar rest with
@@ -572,6 +589,7 @@ inductive Res (α : Type)
 
 /-- shell.Expand. -/
 def shellExpand (s : Bytes) (env : Env) : Res Bytes :=
+  let s := joinLines false s
   match parseDoc (s.length + 1) s [] [] with
   | .err => .err
   | .outside => .outside
